@@ -446,10 +446,14 @@ def queries(tier):
     s2 = lambda: SetupSlotHarness(2)
     s3 = lambda: SetupSlotHarness(3)
     SLOT = ["slot_missed", "slot_spurious", "slot_fields", "slot_ack_missing", "slot_ack_spurious"]
-    for name, layer in slot_cubes(2, "SsIiOoNGFf"):
+    # OUT data packets are enumerated by length (a symbolic length makes the framing symbolic: > 300 s instead of 0.05 s)
+    LEN = {"0": dict(kind=KIND_OUT, flag=0, olen=0), "1": dict(kind=KIND_OUT, flag=0, olen=1),
+           "2": dict(kind=KIND_OUT, flag=0, olen=2), "o": dict(kind=KIND_OUT, flag=1, olen=2)}
+    for name, layer in slot_cubes(2, "SsIi012oNGFf", table=LEN):
         if quick and name[1] not in "Ss":
             continue
         qs.append(Query(f"bmc_2slots_{name}", s2, 66, layer=layer, asserts=SLOT, covers=[], timeout=900, split=False,
+                        tactic="ctx-first" if "s" in name or "o" in name else "portfolio",
                         desc=f"transactions {name} (address, endpoint, data, PIDs, OUT length symbolic): the SETUP is "
                              "reported exactly once with its 8 bytes and ACKed; nothing else is"))
     hints = {"slot_received_last": {}, "slot_received_after_corrupt": {"s0_kind": KIND_SETUP, "s0_flag": 1},
@@ -461,10 +465,11 @@ def queries(tier):
     qs.append(Query("covers_2slots", s2, 66, asserts=[], hints=hints, timeout=900, split=False,
                     covers=["slot_received_last", "slot_received_after_corrupt", "slot_two_setups"], desc="witnesses"))
     if not quick:
-        for name, layer in slot_cubes(3, "SsOoiN"):
+        for name, layer in slot_cubes(3, "Ss2oiN", table=LEN):
             if name[2] in "Ss":
                 qs.append(Query(f"bmc_3slots_{name}", s3, 98, layer=layer, asserts=SLOT, covers=[], timeout=1800,
-                                split=False, desc=f"transactions {name}"))
+                                split=False, tactic="ctx-first" if "s" in name or "o" in name else "portfolio",
+                                desc=f"transactions {name}"))
         qs.append(Query("bmc_gapless_fs", gapless, 50, timeout=1500, layer={"speed": 1},
                         asserts=["ack_missing", "ack_early"], covers=["ack_fs"],
                         desc="full speed, gapless, K=50: ACK exactly inside the FS response window"))
